@@ -75,7 +75,8 @@ def cases(tier, seed):
                 for rows in (1, 2, 4):
                     for oslice in (("all", "one") if n_out == 2 else ("all",)):
                         for w in (("scalar", "vector") if n_out == 2 and oslice == "all" else ("scalar",)):
-                            for obs_param in (False, True):
+                            for obs_param in (False, True) + (("two",) if rows > 1 and w == "scalar" else ()):
+                                # "two": two observed parameter columns at once (row i of each goes with row i of the observation)
                                 out.append(dict(type="obs", kind=kind, d=d, n_out=n_out, rows=rows, oslice=oslice, weight=w, obs_param=obs_param))
                             if rows > 1 and oslice == "all" and w == "scalar":
                                 # the observed column and a parameter batch on the *same* key: the observed rows win for the observation
@@ -181,12 +182,12 @@ def run_case(case):
         nontriv = exp > 0 and (case["ns"] >= 2)
     else:
         obs_param = case["obs_param"]
-        it = (lambda inp, p: inp * p.eq_params["k"]) if obs_param else None
+        it = (lambda inp, p: inp * p.eq_params["k"] + 0.1 * (p.eq_params["a"] - 0.7)) if obs_param else None
         SL = {"all": slice(None), "0:2": slice(0, 2), "1:3": slice(1, 3), "0:1": slice(0, 1), "-1:": slice(-1, None), "1:2": slice(1, 2), "one": slice(1, 2)}
         ssl = case.get("sslice", "all")
         kw_u = {} if ssl == "all" else {"slice_solution": SL[ssl]}
         u, coef, expo = L.make_u(kind, d, n_out, deg=2, salt=4, input_transform=it, **kw_u)
-        params = jinns.parameters.Params(nn_params=u.init_params(), eq_params={"a": jnp.asarray(0.7), "k": jnp.asarray(1.0)})
+        params = jinns.parameters.Params(nn_params=u.init_params(), eq_params={"k": jnp.asarray(1.0), "a": jnp.asarray(0.7)})  # non-alphabetical insertion
         rows = case["rows"]
         pin = L.points(rows, nv, salt=8)
         osl = jnp.s_[...] if case["oslice"] == "all" else SL[case["oslice"]]
@@ -196,7 +197,10 @@ def run_case(case):
         val = np.linspace(-0.3, 0.9, rows * ncol).reshape(rows, ncol)
         wv = 0.5 if case["weight"] == "scalar" else np.array([1.0, 0.3])
         kcol = np.array([0.6 + 0.35 * i for i in range(rows)])
+        acol = np.array([0.7 + (1.1 - 0.5 * i if obs_param == "two" else 0.0) for i in range(rows)])
         obs = {"pinn_in": jnp.asarray(pin), "val": jnp.asarray(val), "eq_params": ({"k": jnp.asarray(kcol[:, None])} if obs_param else {})}
+        if obs_param == "two":
+            obs["eq_params"]["a"] = jnp.asarray(acol[:, None])
         wj = jnp.asarray(wv) if case["weight"] == "vector" else wv
         if kind == "ode":
             loss = L.quiet(jinns.loss.LossODE, u=u, dynamic_loss=None, initial_condition=None, obs_slice=osl, loss_weights=jinns.loss.LossWeightsODE(observations=wj), params=params)
@@ -213,7 +217,7 @@ def run_case(case):
             loss = L.quiet(jinns.loss.LossPDENonStatio, u=u, dynamic_loss=None, obs_slice=osl,
                            loss_weights=jinns.loss.LossWeightsPDENonStatio(observations=wj, initial_condition=1.0), params=params, **ic_kw)
         batch = L.make_batch(kind, L.points(rows, nv), obs=obs, param={"k": jnp.asarray(prow)} if same else None)
-        zin = pin * (kcol[:, None] if obs_param else 1.0)
+        zin = pin * (kcol[:, None] if obs_param else 1.0) + (0.1 * (acol[:, None] - 0.7) if obs_param else 0.0)
         U = L.jets(coef, expo, zin, [()])[()].T  # (rows, n_out)
         U = U[:, sel]
         exp = float(np.mean(np.sum(np.asarray(wv) * (U - val) ** 2, axis=-1)))
@@ -231,5 +235,9 @@ def run_case(case):
                 v.append(V("initial_condition/nonstatio", "initial_condition_term_sees_the_observed_column_instead_of_the_parameter_batch", f"{case}: got {got_ic} expected {exp_ic}"))
         if not close(got, exp):
             v.append(V(site, "observation_term_differs_from_definition" + ("(observed_parameter_rows)" if obs_param else ""), f"{case}: got {got} expected {exp}"))
+        elif obs_param:
+            got_e = float(loss.evaluate(params, batch)[1]["observations"])  # eager: the insertion order of the caller's dictionaries is visible
+            if not close(got_e, exp):
+                v.append(V(site, "observation_term_differs_from_definition(observed_parameter_rows,eager)", f"{case}: got {got_e} expected {exp}"))
         nontriv = exp > 0
     return dict(viol=v, evals=1, nontrivial=[str(case)] if nontriv else [], outcomes=[f"{t}|{kind}|{round(exp, 6)}"], sample={"case": case, "expected": exp, "got": got})
